@@ -858,6 +858,14 @@ archive_read_data(struct archive *_a, void *buff, size_t s)
 	bytes_read = 0;
 	dest = (char *)buff;
 
+	/*
+	 * A block left over from an earlier call belongs to the entry that
+	 * was being read.  Once the handle has left the DATA state (skip,
+	 * close, failure) the memory behind it may be gone.
+	 */
+	if (a->state != ARCHIVE_STATE_DATA)
+		__archive_reset_read_data(a);
+
 	while (s > 0) {
 		if (a->read_data_offset == a->read_data_output_offset &&
 		    a->read_data_remaining == 0) {
